@@ -1,8 +1,8 @@
 package props
 
 import (
-	"strconv"
 	"fmt"
+	"strconv"
 	"strings"
 	"sync"
 
